@@ -5,7 +5,7 @@ CAND = "/verif/work/cand"; RES = "/verif/work/seed_results"; OUT = "/verif/seede
 props = {json.loads(l)["id"]: json.loads(l) for l in open("/verif/properties.jsonl")}
 rows = []
 for p in sorted(os.listdir(CAND)):
-    for k in (1, 2, 3, 4, 5, 6, 7, 8, 9):
+    for k in range(1, 13):
         if not os.path.exists(f"{CAND}/{p}/m{k}.diff"):
             continue
         sid = f"{p}-m{k}"
@@ -71,7 +71,7 @@ for p in sorted(os.listdir(CAND)):
         json.dump(meta, open(f"{d}/meta.json", "w"), indent=1, ensure_ascii=False)
         rows.append((sid, p, "reported (exit 1)" if rc == 1 else ("silent (exit 0)" + "".join(f"; ./check {o_['check']} reports it" for o_ in other if o_["exit_code"] == 1)) if rc == 0 else f"rc={rc}", "; ".join(w.split("  [")[0] for w in whats)[:150], ", ".join(sorted({w.split("[")[-1].rstrip("]").split(" N=")[0] for w in whats if "[" in w}))[:90], note[:80]))
 with open(f"{OUT}/RESULTS.md", "w") as f:
-    f.write("# Seeded changes and what the checks said (quick tier)\n\nEach change was written by a sub-agent that saw only the property text (m3-m6: also short descriptions of the earlier ones for the same property, to avoid duplicates; m5/m6 had to need a LARGE state: 10+ groups, 12+ members, ids above 100, 25+ calls, ...); each is confirmed (builds, suite passes, "
+    f.write("# Seeded changes and what the checks said (quick tier)\n\nEach change was written by a sub-agent that saw only the property text (m3-m6: also short descriptions of the earlier ones for the same property, to avoid duplicates; m5/m6 had to need a LARGE state: 10+ groups, 12+ members, ids above 100, 25+ calls, ... or, for C15-C17, long or unusual inputs; m7 and up come from sub-agents that saw ALL twenty property texts and chose the property themselves - the last of them told to assume a strong checker and to write what it would most likely miss - and are filed under the first property their author named); each is confirmed (builds, suite passes, "
             "demo fails with / passes without). `tools/seedrun.sh <id> seeded/<id>/patch.diff <Cxx>` reproduces a row.\n\n| id | property | check result | what was reported | found by | note |\n|---|---|---|---|---|---|\n")
     for r in rows:
         f.write("| " + " | ".join(r) + " |\n")
